@@ -11,8 +11,10 @@
 //      triangle probe: Eigen::GeneralizedSelfAdjointEigenSolver<DenseMatrix>(a, b) and tapkee's
 //      generalized_eigendecomposition(Dense, HomogeneousCPUStrategy, SmallestEigenvalues, a, b, d)
 //        G ok info evals <D> evecs <D*D row major> sel_evals <d> sel <D*d row major>
-//  E <npe|lltsa|lpp> N D d k width nshift kshift  x[N*D] (sample major)
-//      public API (tapkee::embed, neighbors_method = Brute, eigen_method = Dense) plus the
+//  E <npe|lltsa|lpp> N D d k width nshift kshift em  x[N*D] (sample major)
+//      em = 0: eigen_method = Dense; 1: eigen_method not given (the library's default); 2: Randomized (the library
+//      refuses generalised problems with unsupported_method_error: printed as "E unsupported <what>")
+//      public API (tapkee::embed, neighbors_method = Brute) plus the
 //      reference ingredients computed by the routines that own them (find_neighbors +
 //      linear_weight_matrix / tangent_weight_matrix / compute_laplacian):
 //        E ok shape .. chain <calls> <d> <smallest> <|lhs-own|/|own|> <|rhs-own|/|own|> <|P-result|>
@@ -267,11 +269,13 @@ static int method_of(const std::string& m)
 static int do_E(std::istringstream& is)
 {
     std::string m;
-    int N, D, d, k;
+    int N, D, d, k, em = 0;
     double width, nshift, kshift;
     is >> m >> N >> D >> d >> k;
     if (!is || !rd(is, width) || !rd(is, nshift) || !rd(is, kshift) || N <= 0 || D <= 0 || N > 4096 || D > 512)
     { printf("E ERR parse\n"); return 0; }
+    is >> em;
+    if (!is || em < 0 || em > 2) { printf("E ERR parse\n"); return 0; }
     int mi = method_of(m);
     if (mi < 0) { printf("E ERR method\n"); return 0; }
     DenseMatrix X;
@@ -286,10 +290,26 @@ static int do_E(std::istringstream& is)
     DimensionReductionMethod meth = mi == 0 ? NeighborhoodPreservingEmbedding
                                   : mi == 1 ? LinearLocalTangentSpaceAlignment
                                             : LocalityPreservingProjections;
-    out = embed(idx.begin(), idx.end(), kcb, dcb, fcb,
-                (method = meth, target_dimension = (IndexType)d, num_neighbors = (IndexType)k,
-                 gaussian_kernel_width = width, nullspace_shift = nshift, klle_shift = kshift,
-                 neighbors_method = Brute, eigen_method = Dense));
+    try
+    {
+        if (em == 1)
+            out = embed(idx.begin(), idx.end(), kcb, dcb, fcb,
+                        (method = meth, target_dimension = (IndexType)d, num_neighbors = (IndexType)k,
+                         gaussian_kernel_width = width, nullspace_shift = nshift, klle_shift = kshift,
+                         neighbors_method = Brute));
+        else
+            out = embed(idx.begin(), idx.end(), kcb, dcb, fcb,
+                        (method = meth, target_dimension = (IndexType)d, num_neighbors = (IndexType)k,
+                         gaussian_kernel_width = width, nullspace_shift = nshift, klle_shift = kshift,
+                         neighbors_method = Brute, eigen_method = (em == 2 ? Randomized : Dense)));
+    }
+    catch (const unsupported_method_error& ex)
+    {
+        std::string w = ex.what();
+        for (size_t i = 0; i < w.size(); i++) if (w[i] == '\n') w[i] = ' ';
+        printf("E unsupported %s\n", w.c_str());
+        return 0;
+    }
     MatrixProjectionImplementation* impl =
         dynamic_cast<MatrixProjectionImplementation*>(out.projection.implementation.get());
     if (impl == NULL) { printf("E ERR no-projection\n"); return 0; }
